@@ -203,7 +203,8 @@ Section Rows.
   (* template B with B<Node> = f(params..., nullptr) and B<Tensor> = t(params...) *)
   Definition wiring_ok (s : func) (a : list ex) (extra_null : bool) : bool :=
     let ids := map (fun n => Id n) (names (f_params s)) in
-    exl_eqb a (if extra_null then ids ++ [Id "nullptr"] else ids)%list.
+    let a' := map (fun x => match x with Un o (Id n) => if seqb o "&" then Id n else x | _ => x end) a in
+    exl_eqb a' (if extra_null then ids ++ [Id "nullptr"] else ids)%list.
 
   Definition tensor_name_via_spec (f : func) : option string :=
     match find (fun s => seqb (f_ns s) (f_ns f) && seqb (tag_of (f_name s)) "Node>" &&
@@ -242,7 +243,7 @@ Section Rows.
                               else if seqb s "nullptr" then "null" else "?"
               | _ => "?" end
     | Lit _ => "lit"
-    | Call g _ => if seqb g "dev_or_default" then "Device&" else "?"
+    | Call g _ => if seqb g "dev_or_default" then "Device&" else if seqb g "ptrs_of" then "vec<X*>" else "?"
     | Un o (Call g _) => if seqb o "&" && seqb g "dev_or_default" then "Device*" else "?"
     | Un o (Id s) => if seqb o "&" then
                        match s with
@@ -270,8 +271,16 @@ Section Rows.
   Definition norm_dev (e : ex) : ex :=
     rw (fun x => match x with
                  | Call g [d] => if seqb g "Device::get_reference_or_default" || seqb g "get_device"
-                                 then Some (Call "dev_or_default" [d]) else None
+                                 then Some (Call "dev_or_default" [d])
+                                 else if seqb g "obj_to_ptr" then Some (Call "ptrs_of" [d])   (* the same operand list, as pointers *)
+                                 else None
                  | _ => None end) e.
+
+  (* xs.empty() does not depend on the view of the operand list *)
+  Definition norm_cond (e : ex) : ex :=
+    rw (fun x => match x with
+                 | Meth (Call g [d]) m [] => if seqb g "ptrs_of" && seqb m "empty" then Some (Meth d "empty" []) else None
+                 | _ => None end) (norm_dev e).
 
   (* &dev_or_default(d) handed on as a Device* is defaulted again by the callee: idempotent *)
   Definition norm_devptr (e : ex) : ex :=
@@ -313,7 +322,7 @@ Section Rows.
 
   Definition is_device_recv (tys : list string) (r : ex) : bool :=
     match r with
-    | Meth (Id _) m [] => seqb m "device"
+    | Meth _ m [] => seqb m "device"
     | Call g _ => seqb g "dev_or_default"
     | _ => seqb (kind tys r) "Device&"
     end.
@@ -474,15 +483,37 @@ Section Rows.
     r_tpath : option outcome;    (* the path of the Tensor function with the same condition *)
   }.
 
+  (* return paths of a Tensor function, looking through a body that only forwards to another
+     overload (concat(vector<Tensor>) -> concat(vector<const Tensor *>)) *)
+  Fixpoint tfn_paths (fuel : nat) (t : func) (actuals : list ex) (tys : list string) : list (conds * outcome) :=
+    let here := map (fun p => (map (fun c => (norm_cond (inst_formals (f_params t) actuals (fst c)), snd c)) (fst p),
+                               match snd p with
+                               | ORet e => ORet (norm_dev (inst_formals (f_params t) actuals e))
+                               | o => o end)) (func_paths t) in
+    match fuel with
+    | O => here
+    | S k =>
+      match here with
+      | [([], ORet (Call g a))] =>
+          let (nss, name) := callee (f_ns t) g in
+          match cand api_tensor_funcs nss name (map (kind tys) a) with
+          | Some t' => if forallb simple_arg a then tfn_paths k t' a tys else here
+          | None => here
+          end
+      | _ => here
+      end
+    end.
+
   Definition rows_of (f : func) : list row :=
     let tf := stands_for f in
     map (fun p =>
-           let cs := canon_conds (f_params f) (fst p) in
+           let cs := map (fun c => (norm_cond (fst c), snd c)) (canon_conds (f_params f) (fst p)) in
            {| r_fn := f; r_conds := cs; r_out := snd p;
               r_call := match snd p with ORet e => classify e | _ => NExpr (Other "no-return") end;
               r_tfn := tf;
               r_tpath := match tf with
-                         | Some t => match find (fun q => condl_eqb (canon_conds (f_params t) (fst q)) cs) (func_paths t) with
+                         | Some t => match find (fun q => condl_eqb (fst q) cs)
+                                                    (tfn_paths 4 t (map role (seq 0 (List.length (f_params t)))) (types (f_params f))) with
                                      | Some q => Some (snd q) | None => None end
                          | None => None end |})
         (func_paths f).
@@ -511,7 +542,7 @@ Section Rows.
           | Id s =>
               if seqb s "x" then
                 match args with
-                | Id v => Some (if shape then Call "shapes_of" [Id v] else Id v)
+                | Id v => Some (if shape then Call "shapes_of" [Id v] else Call "ptrs_of" [Id v])
                 | _ => Some (Other "whole x with a brace list")
                 end
               else assoc s menv
@@ -561,13 +592,11 @@ Section Rows.
   Definition row_t (r : row) : reach :=
     match r_tfn r, r_tpath r with
     | Some t, Some (ORet e) =>
-        match func_paths t with
-        | [_] => (* single path: the function itself when its body is not simple *)
-            match simple_body t with
-            | Some b => reach_of 12 (tys_of r) (f_ns t) (norm_dev (canon (f_params t) b))
-            | None => RFun (f_ns t) (f_name t) (types (f_params t)) (map role (seq 0 (List.length (f_params t))))
-            end
-        | _ => reach_of 12 (tys_of r) (f_ns t) (norm_dev (canon (f_params t) e))
+        match e with
+        | Id _ | Meth _ _ _ => reach_of 12 (tys_of r) (f_ns t) e    (* a single call: follow it *)
+        | Call _ a => if forallb simple_arg a then reach_of 12 (tys_of r) (f_ns t) e
+                      else RFun (f_ns t) (f_name t) (types (f_params t)) (map role (seq 0 (List.length (f_params t))))
+        | _ => RFun (f_ns t) (f_name t) (types (f_params t)) (map role (seq 0 (List.length (f_params t))))
         end
     | Some t, _ => RFun (f_ns t) (f_name t) (types (f_params t)) (map role (seq 0 (List.length (f_params t))))
     | None, _ => RBad "no Tensor function"
@@ -576,7 +605,7 @@ Section Rows.
   (* the user-level call as a Tensor-function call on the roles in order *)
   Definition row_self (r : row) : reach :=
     match r_tfn r with
-    | Some t => RFun (f_ns t) (f_name t) (types (f_params t)) (map role (seq 0 (List.length (f_params t))))
+    | Some t => reach_of 12 (tys_of r) (f_ns t) (Call (f_name t) (map role (seq 0 (List.length (f_params t)))))
     | None => RBad "no Tensor function"
     end.
 
